@@ -36,7 +36,7 @@ Print Assumptions C32_remap.
    value), the cores shared out are those whose capacity minus the pieces held
    by the live workloads leaves at least shareBase *)
 Theorem C32_after_history : forall (info : node_info) (h : list op) (base : Z),
-  wf_info info -> usage_zero (ni_usage info) -> Forall op_wf h ->
+  inv_valid (mkState info []) -> wf_info info -> usage_zero (ni_usage info) -> Forall op_wf h ->
   let s := run (mkState info []) h in
   let free c := lookup 0 (nr_cpumap (ni_cap info)) c - zs (fun w => lookup 0 (wr_cpumap w) c) (st_live s) in
   let share := share_cpumap (st_info s) base in
